@@ -289,7 +289,8 @@ theorem drained_factory_stops (w : W) (hb : w.blocked = false) (hd : w.drain = .
     unfold W.tryFinishStop
     simp only [hst, hex, haw, Bool.not_false, Bool.and_self, if_true, true_and]
     obtain ⟨rest, hr⟩ := foldl_dropMsg_log w'.inbox (w'.env.emit (.hook .stopped))
-    exact ⟨rest, by rw [hr]; simp [Env.emit]⟩
+    obtain ⟨rest2, hr2⟩ := killAll_log (w'.inbox.foldl Env.dropMsg (w'.env.emit (.hook .stopped)))
+    exact ⟨rest ++ rest2, by rw [hr2, hr]; simp [Env.emit]⟩
 
 open Factory in
 /-- … and does not stop earlier: with a worker still busy or a job still queued the drain state
